@@ -78,7 +78,10 @@ class SwiftHohenbergPDE(PDEBase):
         return (
             f"{expr_prod(self.rate - self.kc2**2, 'c')} - c³"
             f" + {expr_prod(self.delta, 'c²')}"
-            f" - ∇²({expr_prod(2 * self.kc2, 'c')} + ∇²c)"
+            # the two Laplacians are written one by one, as `evolution_rate` applies
+            # them: grouping `2 kc2 c + ∇²c` under a single Laplacian differs from
+            # the implementation for inhomogeneous boundary conditions
+            f" - {expr_prod(2 * self.kc2, '∇²c')} - ∇²(∇²c)"
         )
 
     def evolution_rate(  # type: ignore
